@@ -75,6 +75,10 @@ pub enum Piece {
 #[derive(Clone, Debug, Serialize, Deserialize)]
 pub struct DataProg {
     pub pieces: Vec<Piece>,
+    /// leave out the fixed closing row: families that iterate over nothing then leave an empty
+    /// constraint section
+    #[serde(default)]
+    pub bare: bool,
 }
 
 pub fn num(v: f64) -> String {
@@ -145,7 +149,9 @@ impl DataProg {
         // a constraint section cannot be empty in the language: a fixed last row keeps both
         // texts well-formed when every family iterates over nothing
         for t in [&mut d, &mut u] {
-            t.constraints.push("last: zz <= 1".to_string());
+            if !self.bare {
+                t.constraints.push("last: zz <= 1".to_string());
+            }
             t.decls.push("zz as Boolean".to_string());
         }
         (d.program(), u.program())
@@ -547,5 +553,5 @@ pub fn piece() -> BoxedStrategy<Piece> {
 }
 
 pub fn data_prog() -> BoxedStrategy<DataProg> {
-    proptest::collection::vec(piece(), 1..=3).prop_map(|pieces| DataProg { pieces }).boxed()
+    (proptest::collection::vec(piece(), 1..=3), proptest::bool::weighted(0.25)).prop_map(|(pieces, bare)| DataProg { pieces, bare }).boxed()
 }
